@@ -246,7 +246,24 @@ def g_concat(rng):
         shapes[-1] = shapes[-1] + [2]           # rank mismatch
         chunkss[-1] = chunkss[-1] + [1]
     ax = axis
-    if rng.random() < 0.15:
+    if rng.random() < 0.2:
+        # the shape test is the only thing that can refuse: 2-d, one block along the other dimension, equal chunk size
+        # along the axis, lengths along the other dimension differ by one
+        nd, axis, n = 2, rng.randint(0, 1), rng.randint(2, 3)
+        other = 1 - axis
+        cs = rng.randint(1, 3)
+        base = rng.randint(1, 4)
+        shapes, chunkss = [], []
+        for q in range(n):
+            sh = [0, 0]
+            sh[axis] = rng.randint(1, 6)
+            sh[other] = base + (1 if q == 0 else 0)     # first input larger: nothing downstream refuses incidentally
+            ch = [0, 0]
+            ch[axis] = min(cs, sh[axis])
+            ch[other] = sh[other]
+            shapes.append(sh); chunkss.append(ch)
+        ax = axis
+    elif rng.random() < 0.15:
         ax = rng.choice([nd, -nd - 1, nd + 1])
     elif rng.random() < 0.2:
         ax = axis - nd
@@ -683,6 +700,8 @@ def corr_keys(ctx, n):
                 elif fam == "region":
                     for _try in range(50):
                         p = gen_region(rng)
+                        if p["start"] is None and p["stop"] is None and p["step"] is None:
+                            continue       # whole-array store: index-notation blockwise, not the region key function
                         try:
                             src, z, res = build_region(p)
                             break
@@ -745,8 +764,8 @@ def corr(ctx):
     import common
     recs = assert_records(common.REPO)
     ctx.extra["assert_table"] = ["%s:%s:%d: assert %s" % (f, q, ln, t) for f, q, t, ln in recs]
-    corr_validate(ctx, ctx.budget(500, 6000))
-    corr_keys(ctx, ctx.budget(80, 500))
+    corr_validate(ctx, ctx.budget(500, 4000))
+    corr_keys(ctx, ctx.budget(80, 300))
 
 
 # ----------------------------------------------------------------------------------------------
@@ -1226,7 +1245,7 @@ def oracle(ctx):
     import common
     common.use_repo()
     import exprgen
-    nprog = ctx.budget(60, 600)
+    nprog = ctx.budget(60, 350)
     for i in range(nprog):
         prog = exprgen.gen_program(ctx.rng, max_depth=ctx.rng.choice([1, 2, 3, 4]), max_elems=600, max_blocks=40)
         r = ctx.rng.random()
@@ -1237,8 +1256,8 @@ def oracle(ctx):
             configs = ["default", "off", "simple", "fuse_all"] if r < 0.2 else ["default"] if r < 0.6 else ["off"]
             execs = ("single", "threads") if r < 0.1 else ("single",)
         exprgen_case(ctx, prog, configs, execs)
-    oracle_streams(ctx, ctx.budget(14, 100))
-    oracle_legacy(ctx, ctx.budget(12, 60))
+    oracle_streams(ctx, ctx.budget(14, 60))
+    oracle_legacy(ctx, ctx.budget(12, 40))
     oracle_regressions(ctx)
 
 
